@@ -324,18 +324,23 @@ class Structure(object):
 
         return self._level
 
-    @cached_property
+    @property
     def newick(self):
         """
         Newick representation of this structure.
         """
-        if self.idx is None:
-            raise ValueError("Cannot return Newick representation if idx is not set")
-        if self.children:
-            newick_items = [child.newick for child in self.children]
-            return "(%s)%s:%.3f" % (','.join(newick_items), self.idx, self.height)
-        else:
-            return "%i:%.3f" % (self.idx, self.height)
+        # build the strings from the leaves up, without recursion and without
+        # a persistent memo (which went stale when the tree was pruned)
+        newick = {}
+        for s in reversed(list(prefix_visit(self))):
+            if s.idx is None:
+                raise ValueError("Cannot return Newick representation if idx is not set")
+            if s.children:
+                newick_items = [newick.pop(child) for child in s.children]
+                newick[s] = "(%s)%s:%.3f" % (','.join(newick_items), s.idx, s.height)
+            else:
+                newick[s] = "%i:%.3f" % (s.idx, s.height)
+        return newick[self]
 
     @property
     def descendants(self):
